@@ -385,7 +385,7 @@ def run_sequence(cfgs, filepath):
 DEFECTS = ['head_noclose', 'bodiless_body', 'push_cl', 'empty_chunk', 'chunk_noterm', 'stream_sized',
            'listwish', 'casewish', 'tailappend', 'shortread']
 VARIANTS = ['tree', 'rfc']          # tree = the repository as it is: the intended algorithm + "listwish"
-TREE_DEFECTS = ['listwish']
+TREE_DEFECTS = []
 
 
 def cfg_of(h):
@@ -405,15 +405,21 @@ def canon_twin(cfgs):
     return [dict(c, spell='canon') for c in cfgs]
 
 
-def fill_refclosed(lines, twin_lines):
-    """refclosed of exchange i := `closed` of exchange i of the canonical twin."""
+def fill_refclosed(lines, twin_lines, info=None):
+    """refclosed of exchange i := `closed` of exchange i of the canonical twin.  Where
+    the twin's connection ended earlier (an earlier exchange already differs, and is
+    judged there) there is no reference: refclosed stays = closed (no verdict)."""
     tx = [ln for ln in twin_lines if ln['k'] == 'x']
     for ln in lines:
-        if ln['k'] == 'x' and ln['i'] <= len(tx):
+        if ln['k'] != 'x':
+            continue
+        if ln['i'] <= len(tx):
             ln['refclosed'] = tx[ln['i'] - 1]['closed']
+        elif info is not None:
+            info[ln['i'] - 1]['no_reference'] = True
 
 
-def norm_line(ln):
+def norm_line(ln, mask_ref=False):
     """Projection of an exchange line on which the model commits itself."""
     if ln['parse'] != 'ok':
         return (ln['parse'],)
@@ -422,7 +428,7 @@ def norm_line(ln):
         f = lambda v: 500 if v == xl else v
         cl, bl, ex, xl = f(cl), f(bl), f(ex), 500
     return (ln['parse'], ln['ostatus'], ln['over'], ln['hascl'], cl, ln['chunked'], bl, ex > 0,
-            ln['cclose'], ln['cka'], ln['closed'], ln['closed'] == ln['refclosed'], ln['bodyeq'], xl)
+            ln['cclose'], ln['cka'], ln['closed'], mask_ref or ln['closed'] == ln['refclosed'], ln['bodyeq'], xl)
 
 
 def witness_of(lines, badline, info):
@@ -639,10 +645,10 @@ def run(tier, replay=None):
     finally:
         os.unlink(fp)
 
-    for sq, (lines, _info) in zip(seqs, runs):
+    for sq, (lines, info) in zip(seqs, runs):
         tw = canon_twin(sq)
         if tw:
-            fill_refclosed(lines, runs[index[hist_key(tw)]][0])
+            fill_refclosed(lines, runs[index[hist_key(tw)]][0], info)
     timing['replay_s'] = round(time.time() - t0, 1)
     t0 = time.time()
     # 3. TLC judges every recorded trace
@@ -673,11 +679,12 @@ def run(tier, replay=None):
             h = key[:j]
             if j > 1 and info[j - 2]['residue']['clients'] > 0:
                 break       # served from a stale (request, response) pair: the model does not predict the bytes
-            cands = {v: norm_line(pred[v][h][0]) for v in VARIANTS if h in pred[v]}
+            noref = bool(info[j - 1].get('no_reference'))
+            cands = {v: norm_line(pred[v][h][0], noref) for v in VARIANTS if h in pred[v]}
             if not cands:
                 continue
             n_cmp += 1
-            real = norm_line(ln)
+            real = norm_line(ln, noref)
             hit = [v for v, p in cands.items() if p == real]
             if hit:
                 n_match += 1
